@@ -3,10 +3,11 @@ import Hv.Generated.FactsC13
 
 namespace Hv.C13
 
+set_option maxRecDepth 100000 in
 /-- The kernel-checked decision for the facts extracted from /repo on this run. -/
 theorem verdict :
     (classify Generated.factsC13).Sound (Full Generated.factsC13) (HoldsExcept (cfgOf Generated.factsC13)) :=
-  classify_sound _
+  classify_sound Generated.factsC13
 
 #eval IO.println (verdictLine "C13" (classify Generated.factsC13))
 #print axioms verdict
@@ -30,6 +31,15 @@ theorem verdict :
 #print axioms apply_refines_spec_unvalidated_partial
 #print axioms atomic_fold
 #print axioms patchFields_refines
+#print axioms pfGate_created_map
+#print axioms witness_nonmap_seed
+#print axioms wire_cond_agrees
+#print axioms Hv.Patch.wire_op_agrees
+#print axioms Hv.Patch.gw_refines
+#print axioms Hv.Patch.WireCfg.holds_of_agrees
+#print axioms Hv.Patch.WireCfg.not_holds_of_disagree
+#print axioms Hv.Patch.witness_wire_truncated
+#print axioms Hv.Patch.witness_wire_swapped
 #print axioms witness_spliced_opaque
 #print axioms inc_keeps_format
 #print axioms common
